@@ -30,6 +30,8 @@ pub enum Piece {
     Oversize,
     /// a complete GET and the header block of an Expect PUT in one write (the body is the Rest)
     GetExpect,
+    /// nine pipelined GETs in one write (long pipelines; large answer batches)
+    Many,
 }
 
 #[derive(Clone, Copy, Debug, PartialEq, Eq)]
@@ -68,6 +70,9 @@ pub enum Act {
     /// answer everything outstanding, oldest first / newest first
     RespondAll(Size),
     RespondAllRev(Size),
+    /// answer everything outstanding with ONE call of `enqueue_responses`; the order of the batch
+    /// is the permutation derived from the number (0 = oldest first, 1 = newest first)
+    RespondBatch(u64, Size),
     Flush,
     SetLimit(usize),
     Kill,
@@ -88,6 +93,7 @@ fn piece_name(p: Piece) -> &'static str {
         Piece::Garbage => "garbage",
         Piece::Oversize => "oversize",
         Piece::GetExpect => "getexpect",
+        Piece::Many => "many",
     }
 }
 fn parse_piece(s: &str) -> Option<Piece> {
@@ -103,6 +109,7 @@ fn parse_piece(s: &str) -> Option<Piece> {
         "garbage" => Piece::Garbage,
         "oversize" => Piece::Oversize,
         "getexpect" => Piece::GetExpect,
+        "many" => Piece::Many,
         _ => return None,
     })
 }
@@ -137,6 +144,7 @@ impl Act {
             Act::RespondNewest(s) => format!("respondnewest:{}", size_name(*s)),
             Act::RespondAll(s) => format!("respondall:{}", size_name(*s)),
             Act::RespondAllRev(s) => format!("respondallrev:{}", size_name(*s)),
+            Act::RespondBatch(k, s) => format!("respondbatch:{}:{}", k, size_name(*s)),
             Act::Flush => "flush".into(),
             Act::SetLimit(l) => format!("setlimit:{}", l),
             Act::Kill => "kill".into(),
@@ -159,6 +167,7 @@ impl Act {
             "respondnewest" => Act::RespondNewest(parse_size(parts.get(1)?)?),
             "respondall" => Act::RespondAll(parse_size(parts.get(1)?)?),
             "respondallrev" => Act::RespondAllRev(parse_size(parts.get(1)?)?),
+            "respondbatch" => Act::RespondBatch(parts.get(1)?.parse().ok()?, parse_size(parts.get(2)?)?),
             "flush" => Act::Flush,
             "setlimit" => Act::SetLimit(n(1)?),
             "kill" => Act::Kill,
@@ -248,6 +257,21 @@ pub fn apply(sim: &mut Sim, a: &Act) -> Applied {
                     if n == b1.len() {
                         sim.gens[gi].completed.push(t1);
                         sim.gens[gi].completed.push(t2);
+                    } else {
+                        sim.gens[gi].send_failed = true;
+                    }
+                }
+                Piece::Many => {
+                    let mut all = Vec::new();
+                    let mut tags = Vec::new();
+                    for _ in 0..9 {
+                        let (t, b) = sim.next_request(gi, ReqKind::Get);
+                        all.extend_from_slice(&b);
+                        tags.push(t);
+                    }
+                    let n = sim.send_bytes(gi, &all);
+                    if n == all.len() {
+                        sim.gens[gi].completed.extend(tags);
                     } else {
                         sim.gens[gi].send_failed = true;
                     }
@@ -353,6 +377,25 @@ pub fn apply(sim: &mut Sim, a: &Act) -> Applied {
                 let i = sim.outstanding.len() - 1;
                 sim.respond(i, s.bytes());
             }
+            Applied::Done
+        }
+        Act::RespondBatch(k, s) => {
+            if sim.outstanding.is_empty() {
+                return Applied::Skipped;
+            }
+            let n = sim.outstanding.len();
+            let mut order: Vec<usize> = (0..n).collect();
+            match *k {
+                0 => {}
+                1 => order.reverse(),
+                k => {
+                    let mut r = Rng::new(k);
+                    for i in (1..n).rev() {
+                        order.swap(i, r.below(i + 1));
+                    }
+                }
+            }
+            sim.respond_batch(&order, s.bytes());
             Applied::Done
         }
         Act::Flush => {
